@@ -78,14 +78,11 @@ class History:
             evalenv.set_cer(evalenv.make_cer(packages={"7P": "[1] U [2]", "8P": "[3] O ([4] U [UB1])", "9P": "[5][901]"}))
             self.cached = [cp.parse_condition_expression_to_tree, ap.parse_ahb_expression_to_single_requirement_indicator_expressions]
             def flags(s):
-                # every combination of the two flags is used, as a fixed function of the string (so that replays repeat it)
-                import zlib
-                h = zlib.crc32(("flags" + s).encode("utf-8", "replace"))
-                if s.count("P]") >= 10 or ("UB" in s and h % 3):
-                    return {"resolve_packages": True, "replace_time_conditions": True}  # time conditions are mostly resolved with the default flag
-                return {"resolve_packages": bool(h & 1), "replace_time_conditions": bool(h & 2)}
+                # the two flags are written in front of the string ("TF|Muss [1]": resolve_packages=True, replace_time_conditions=False), so that a
+                # history names them and a replay repeats them
+                return {"resolve_packages": s[0] == "T", "replace_time_conditions": s[1] == "T"}
             self.flags = flags
-            self.fn = lambda s: asyncio.run(resolve(s, **flags(s)))
+            self.fn = lambda s: asyncio.run(resolve(s[3:], **flags(s)))
             self.raw = None
         self.clear()
         self.parser = parser
@@ -305,8 +302,10 @@ def run(ctx: Ctx) -> None:
             strings = [deep_string(rng, d) for d in (150, 270, 330)]
         if parser == "resolve":
             deep = True  # (no model twin: answers of the resolver are compared with its own first answers)
-            strings = ["Muss [1] U [UB3]", "[UB1] O [UB1]", "Muss [UB2] Soll [7P]", "[7P] U [8P]", "X [9P] O [UB1]", "[2] U ([UB3] O [8P 1..2])",
-                       " U ".join(["[7P]", "[8P]", "[9P]"] * 4)]  # twelve package occurrences in one expression
+            base = ["Muss [1] U [UB3]", "[UB1] O [UB1]", "Muss [UB2] Soll [7P]", "X [9P] O [UB1]", "[2] U ([UB3] O [8P 1..2])"]
+            strings = [f + "|" + b for b in base for f in ("TT", "FF")] + ["TF|" + base[2], "FT|" + base[0]]
+            strings.append("TT|" + " U ".join(["[7P]", "[8P]", "[9P]"] * 4))  # twelve package occurrences in one expression
+            n_prelude = len(strings)
         while len(strings) < n_strings:
             e = T.rand_expr(rng, rng.randint(1, 5))
             s = T.render(e, T.Style(rng, "min", "upper", "one")).strip()
@@ -315,9 +314,10 @@ def run(ctx: Ctx) -> None:
                 s = _re.sub(r"\[\d+P[^\]]*\]", lambda m: rng.choice(["[7P]", "[8P]", "[9P]"]), s)
                 if rng.random() < 0.5:
                     s = rng.choice(["Muss ", "X ", "Soll "]) + s
+                s = rng.choice(["TT", "TT", "FF", "TF", "FT"]) + "|" + s
             if parser == "ahb":
                 s = rng.choice(["Muss", "Soll", "Kann", "X"]) + " " + s + rng.choice(["", " Kann", " Soll [1]"])
-            if rng.random() < 0.05:
+            if rng.random() < 0.05 and parser != "resolve":
                 s = s[:-1]  # malformed: SyntaxError is not memoised
             if s not in strings:
                 strings.append(s)
@@ -326,13 +326,13 @@ def run(ctx: Ctx) -> None:
         seen = []
         if parser == "resolve":
             # systematic prelude: every sub-tree of every returned tree of the first strings is edited once, then all of them are resolved again
-            for s0 in strings[:7]:
+            for s0 in strings[:n_prelude]:
                 if h.step_parse(s0) is None or not h.held:
                     continue
                 root = len(h.held) - 1
-                for path, _ in list(h.subtrees(h.held[root]))[:14]:
+                for path, _ in list(h.subtrees(h.held[root]))[:10]:
                     h.step_edit(at=(root, path))
-                for s1 in strings[:7]:
+                for s1 in strings[:n_prelude]:
                     h.step_parse(s1)
                     ctx.case((parser, len(histories), "prelude", s0, s1))
         for k in range(n_ops):
